@@ -69,6 +69,20 @@ class Val:
         return 'V%d/%d%s' % (self.serial, self.k, '' if self.ret else 'n')
 
 
+class FalsyVal(Val):
+    """A registered value that is false in a boolean context (an empty container adapter, say): only None means
+    "nothing registered"."""
+
+    def __bool__(self):
+        return False
+
+    def __len__(self):
+        return 0
+
+    def __repr__(self):
+        return 'F' + Val.__repr__(self)
+
+
 class RW:
     """Registry world + reference model."""
 
@@ -127,7 +141,7 @@ class RW:
         self.serial += 1
         if ret is None:
             ret = self.rng.random() < 0.8
-        return Val(self.rng.randint(0, 3), self.serial, ret)
+        return (FalsyVal if self.rng.random() < 0.1 else Val)(self.rng.randint(0, 3), self.serial, ret)
 
     def chain(self, ri):
         """C3 order of the registry chain, from the *current* __bases__."""
@@ -433,12 +447,34 @@ def run_c07(ctx, rng, job):
             w.subscribe(ri, req, prov, v)
         else:
             e = rng.choice(w.subs[ri])
+            # the key as a caller may write it: None where the root interface is meant
+            kreq = tuple(None if (x is Interface and rng.random() < 0.5) else x for x in e[0])
+            if any(x is None for x in kreq):
+                ctx.count('unsubscribe_with_None_required')
             if rng.random() < 0.6:
-                w.unsubscribe(ri, e[0], e[1], Val(e[2].k, -1) if rng.random() < 0.5 else e[2])
+                w.unsubscribe(ri, kreq, e[1], Val(e[2].k, -1) if rng.random() < 0.5 else e[2])
                 ctx.count('unsubscribe_value')
             else:
-                w.unsubscribe(ri, e[0], e[1])
+                w.unsubscribe(ri, kreq, e[1])
                 ctx.count('unsubscribe_all')
+        if rng.random() < 0.25:
+            # adapters live in the same registries and share the per-interface bookkeeping with the subscribers
+            # (reference counts of provided interfaces, extendor lists): register / overwrite / unregister them too
+            areg = rng.randrange(len(w.regs))
+            if w.adapters[areg] and rng.random() < 0.5:
+                k = rng.choice(list(w.adapters[areg]))
+                if rng.random() < 0.6:
+                    w.unregister(areg, *k)
+                else:
+                    w.register(areg, k[0], k[1], k[2], w.newval())
+            else:
+                kreq, kprov, kname = w.rand_key()
+                if w.subs[areg] and rng.random() < 0.6:
+                    e = rng.choice(w.subs[areg])
+                    if e[1] is not None:
+                        kprov = e[1]            # the same provided interface as a live subscription
+                w.register(areg, kreq, kprov, kname, w.newval())
+            ctx.count('adapter_mutations_between_subscriptions')
         for q in range(rng.randint(1, 4)):
             li = rng.randrange(len(w.regs))
             ar = rng.choice([0, 1, 1, 2, 2, 3])
@@ -451,7 +487,20 @@ def run_c07(ctx, rng, job):
                 ctx.ev()
                 if not all(isinstance(x, tuple) and len(x) == 2 and isinstance(x[0], str) for x in la):
                     ctx.violation('lookupAll-result-shape', {'registry': li, 'got': repr(la)[:200]})
+            if lprov is not None and rng.random() < 0.3:
+                # and the single-result entry point for the same arguments (its cache is a different one)
+                l1 = w.regs[li].lookup(lreq, lprov, '')
+                ctx.ev()
+                mexp, _info = w.m_lookup(li, lreq, lprov, '')
+                if not any(l1 is x for x in mexp):
+                    ctx.violation('lookup-next-to-subscriptions', {'registry': li, 'got': repr(l1)[:200], 'expected_one_of': repr(mexp)})
             got = w.regs[li].subscriptions(lreq, lprov)
+            if lprov is not None and rng.random() < 0.2:
+                l1 = w.regs[li].lookup(lreq, lprov, '')
+                ctx.ev()
+                mexp, _info = w.m_lookup(li, lreq, lprov, '')
+                if not any(l1 is x for x in mexp):
+                    ctx.violation('lookup-next-to-subscriptions', {'registry': li, 'got': repr(l1)[:200], 'expected_one_of': repr(mexp)})
             if lprov is not None and rng.random() < 0.2:
                 la = w.regs[li].lookupAll(lreq, lprov)
                 ctx.ev()
